@@ -102,6 +102,22 @@ def check(scn, hist):
             out.append(V(PROP, 'roundtrip_failed', m, oid, 'fault-free %s%r against a conforming board recorded %r'
                          % (m, tuple(args), a['err'])))
             continue
+        if not faulty and m != 'connect':
+            about_ram = m in ('var_write', 'var_write_int32')
+            about_nick = m == 'write_nickname'
+            about_motors = m in ('motors_enable', 'motors_disable', 'xy_move', 'abs_move', 'timed_pause')
+            if not about_ram and before['ram'] != after['ram']:
+                j = [i for i in range(32) if before['ram'][i] != after['ram'][i]][0]
+                out.append(V(PROP, 'side_effect', m, oid, '%s%r changed variable slot %d from %d to %d'
+                             % (m, tuple(args), j, before['ram'][j], after['ram'][j])))
+            if not about_nick and before['nick'] != after['nick']:
+                out.append(V(PROP, 'side_effect', m, oid, '%s%r changed the nickname from %r to %r'
+                             % (m, tuple(args), before['nick'], after['nick'])))
+            if not about_motors and (before['en1'], before['en2'], before['mode']) != \
+                    (after['en1'], after['en2'], after['mode']):
+                out.append(V(PROP, 'side_effect', m, oid, '%s%r changed the motor state from %r to %r'
+                             % (m, tuple(args), (before['en1'], before['en2'], before['mode']),
+                                (after['en1'], after['en2'], after['mode']))))
         if m == 'var_write_int32':
             v, idx = args[0], args[1]
             want = list(v.to_bytes(4, 'big', signed=True))
@@ -316,6 +332,7 @@ def gen_op(rng, slots_hot):
 
 def gen(rng, idx):
     world = world_for(rng)
+    world['reply_latency'] = rng.choice(['half', 'half', 'instant'])
     port = world['boards'][0]['port']
     mode = 'conforming' if rng.random() < 0.75 else 'faulty'
     ops = [{'op': 'new', 'obj': 0}, call(0, 'connect')]
@@ -323,6 +340,8 @@ def gen(rng, idx):
     slots_hot = sorted(set(min(28, base + d) for d in (0, 1, 2, 3, 4)))
     n = rng.randint(5, 40)
     for _ in range(n):
+        if rng.random() < 0.05:
+            ops.append({'op': 'env', 'what': 'idle', 'seconds': rng.choice([1, 3, 10, 120, 4000])})
         if rng.random() < 0.04:
             ops.append(call(0, 'disconnect'))
             x = rng.random()
@@ -378,6 +397,8 @@ def sweep_cells(tier):
     for s in (0, 1, 13, 27, 28):
         cells.append(['int32', s])
     cells.append(['nick', 0])
+    cells.append(['long', 0])
+    cells.append(['long', 1])
     return cells
 
 
@@ -392,6 +413,30 @@ def sweep_expand(cell):
                 ops = mk_ops([{'op': 'new', 'obj': 0}, call(0, 'connect'), call(0, 'motors_query_enabled'),
                               call(0, 'motors_enable', [r1, r2]), call(0, 'motors_query_enabled')])
                 yield {'prop': PROP, 'world': world, 'ops': ops, 'faults': {}}
+    elif what == 'long':
+        # one object used for a long time: well over a thousand exchanges, with idle gaps of seconds to hours,
+        # values written before unrelated requests and read back after them
+        r2 = random.Random('c16-long-%d' % x)
+        world = world_for(r2)
+        world['reply_latency'] = 'instant' if x else 'half'
+        ops = [{'op': 'new', 'obj': 0}, call(0, 'connect')]
+        for k in range(170):
+            v = r2.choice(INT32_EDGES) if k % 3 else r2.randint(-2 ** 31, 2 ** 31 - 1)
+            i = r2.choice([0, 5, 13, 27, 28])
+            ops.append(call(0, 'var_write_int32', [v, i]))
+            if k % 4 == 0:
+                ops.append(call(0, r2.choice(['motors_disable', 'motors_query_enabled', 'query_nickname', 'xy_move']),
+                                [3, 4, 5] if ops and False else []))
+                if ops[-1]['m'] == 'xy_move':
+                    ops[-1]['a'] = [r2.randint(-9, 9), r2.randint(-9, 9), 10]
+            if k % 5 == 0:
+                ops.append(call(0, 'motors_enable', [r2.randint(0, 5), r2.randint(0, 5)]))
+            if k % 7 == 0:
+                ops.append({'op': 'env', 'what': 'idle', 'seconds': r2.choice([2, 5, 60, 7200])})
+            if k % 11 == 0:
+                ops.append(call(0, 'write_nickname', [r2.choice(NICKS)]))
+            ops.append(call(0, 'var_read_int32', [i]))
+        yield {'prop': PROP, 'world': world, 'ops': mk_ops(ops), 'faults': {}, 'io_cap': 100000}
     elif what == 'int32':
         vals = sorted(set(INT32_EDGES + [(1 << k) for k in range(31)] + [-(1 << k) for k in range(32)] +
                           [(1 << k) - 1 for k in range(1, 32)] + [-(1 << k) - 1 for k in range(31)]))
